@@ -46,6 +46,30 @@ Properties/C07.vos Properties/C07.vok Properties/C07.required_vos: Properties/C0
 Mon/C07.vo Mon/C07.glob Mon/C07.v.beautified Mon/C07.required_vo: Mon/C07.v Model.vo Spec/Stack.vo Spec/Bracket.vo
 Mon/C07.vio: Mon/C07.v Model.vio Spec/Stack.vio Spec/Bracket.vio
 Mon/C07.vos Mon/C07.vok Mon/C07.required_vos: Mon/C07.v Model.vos Spec/Stack.vos Spec/Bracket.vos
-Proofs/Trace.vo Proofs/Trace.glob Proofs/Trace.v.beautified Proofs/Trace.required_vo: Proofs/Trace.v Model.vo Spec/Stack.vo
-Proofs/Trace.vio: Proofs/Trace.v Model.vio Spec/Stack.vio
-Proofs/Trace.vos Proofs/Trace.vok Proofs/Trace.required_vos: Proofs/Trace.v Model.vos Spec/Stack.vos
+Proofs/Trace.vo Proofs/Trace.glob Proofs/Trace.v.beautified Proofs/Trace.required_vo: Proofs/Trace.v Model.vo Spec/Stack.vo Mon/C12.vo
+Proofs/Trace.vio: Proofs/Trace.v Model.vio Spec/Stack.vio Mon/C12.vio
+Proofs/Trace.vos Proofs/Trace.vok Proofs/Trace.required_vos: Proofs/Trace.v Model.vos Spec/Stack.vos Mon/C12.vos
+Mon/C12.vo Mon/C12.glob Mon/C12.v.beautified Mon/C12.required_vo: Mon/C12.v Model.vo Spec/Stack.vo
+Mon/C12.vio: Mon/C12.v Model.vio Spec/Stack.vio
+Mon/C12.vos Mon/C12.vok Mon/C12.required_vos: Mon/C12.v Model.vos Spec/Stack.vos
+Spec/Exec.vo Spec/Exec.glob Spec/Exec.v.beautified Spec/Exec.required_vo: Spec/Exec.v Model.vo Spec/Stack.vo
+Spec/Exec.vio: Spec/Exec.v Model.vio Spec/Stack.vio
+Spec/Exec.vos Spec/Exec.vok Spec/Exec.required_vos: Spec/Exec.v Model.vos Spec/Stack.vos
+Mon/Control.vo Mon/Control.glob Mon/Control.v.beautified Mon/Control.required_vo: Mon/Control.v Model.vo Spec/Stack.vo Spec/Exec.vo
+Mon/Control.vio: Mon/Control.v Model.vio Spec/Stack.vio Spec/Exec.vio
+Mon/Control.vos Mon/Control.vok Mon/Control.required_vos: Mon/Control.v Model.vos Spec/Stack.vos Spec/Exec.vos
+Proofs/ExecBasic.vo Proofs/ExecBasic.glob Proofs/ExecBasic.v.beautified Proofs/ExecBasic.required_vo: Proofs/ExecBasic.v Model.vo Spec/Stack.vo Spec/Exec.vo Mon/Control.vo
+Proofs/ExecBasic.vio: Proofs/ExecBasic.v Model.vio Spec/Stack.vio Spec/Exec.vio Mon/Control.vio
+Proofs/ExecBasic.vos Proofs/ExecBasic.vok Proofs/ExecBasic.required_vos: Proofs/ExecBasic.v Model.vos Spec/Stack.vos Spec/Exec.vos Mon/Control.vos
+Proofs/InvNames.vo Proofs/InvNames.glob Proofs/InvNames.v.beautified Proofs/InvNames.required_vo: Proofs/InvNames.v Model.vo Proofs/Trace.vo Mon/C12.vo
+Proofs/InvNames.vio: Proofs/InvNames.v Model.vio Proofs/Trace.vio Mon/C12.vio
+Proofs/InvNames.vos Proofs/InvNames.vok Proofs/InvNames.required_vos: Proofs/InvNames.v Model.vos Proofs/Trace.vos Mon/C12.vos
+Spec/Tables.vo Spec/Tables.glob Spec/Tables.v.beautified Spec/Tables.required_vo: Spec/Tables.v Sem.vo
+Spec/Tables.vio: Spec/Tables.v Sem.vio
+Spec/Tables.vos Spec/Tables.vok Spec/Tables.required_vos: Spec/Tables.v Sem.vos
+Proofs/MonC12.vo Proofs/MonC12.glob Proofs/MonC12.v.beautified Proofs/MonC12.required_vo: Proofs/MonC12.v Model.vo Spec/Stack.vo Spec/Tables.vo Mon/C12.vo Proofs/Trace.vo Proofs/InvNames.vo
+Proofs/MonC12.vio: Proofs/MonC12.v Model.vio Spec/Stack.vio Spec/Tables.vio Mon/C12.vio Proofs/Trace.vio Proofs/InvNames.vio
+Proofs/MonC12.vos Proofs/MonC12.vok Proofs/MonC12.required_vos: Proofs/MonC12.v Model.vos Spec/Stack.vos Spec/Tables.vos Mon/C12.vos Proofs/Trace.vos Proofs/InvNames.vos
+Properties/C12.vo Properties/C12.glob Properties/C12.v.beautified Properties/C12.required_vo: Properties/C12.v Model.vo Mon/C12.vo Proofs/Trace.vo Proofs/InvNames.vo Proofs/MonC12.vo
+Properties/C12.vio: Properties/C12.v Model.vio Mon/C12.vio Proofs/Trace.vio Proofs/InvNames.vio Proofs/MonC12.vio
+Properties/C12.vos Properties/C12.vok Properties/C12.required_vos: Properties/C12.v Model.vos Mon/C12.vos Proofs/Trace.vos Proofs/InvNames.vos Proofs/MonC12.vos
